@@ -286,6 +286,30 @@ fn run_call(
         json!(formulas.iter().map(|f| crate::syn::chars_of(f)).collect::<Vec<_>>()),
     );
 
+    // step-level trace through the cfg(hctl_verif) hooks
+    let trace_on = call["trace"].as_bool().unwrap_or(false);
+    let trace_log: std::rc::Rc<std::cell::RefCell<Vec<Value>>> = std::rc::Rc::new(std::cell::RefCell::new(Vec::new()));
+    #[cfg(hctl_verif)]
+    if trace_on {
+        use biodivine_hctl_model_checker::verif_hooks::{set_sink, Event};
+        let log = trace_log.clone();
+        let sctx = g.symbolic_context().clone();
+        let bn2 = bn.clone();
+        let kk = k as usize;
+        set_sink(Box::new(move |ev: &Event| {
+            let v = match ev {
+                Event::Hit(key, left, evicted) => json!({"e":"hit","key":key,"left":left,"evict":evicted}),
+                Event::Miss(key, save) => json!({"e":"miss","key":key,"save":save}),
+                Event::Save(key) => json!({"e":"save","key":key}),
+                Event::Pattern(kind) => json!({"e":"pattern","kind":kind}),
+                Event::Open(var, dom) => json!({"e":"open","var":var,"dom":dom.unwrap_or("")}),
+                Event::Empty(var) => json!({"e":"empty","var":var}),
+                Event::Close(var) => json!({"e":"close","var":var}),
+                Event::Return(f, set) => json!({"e":"ret","f":f,"set":explicit_full(set.as_bdd(), &sctx, &bn2, kk)}),
+            };
+            log.borrow_mut().push(v);
+        }));
+    }
     let fs: Vec<&str> = formulas.iter().map(|s| s.as_str()).collect();
     let mut n_callbacks = 0u64;
     let mut cb = |_: &GraphColoredVertices, _: &str| {
@@ -329,10 +353,20 @@ fn run_call(
             _ => Err(format!("TOOL: unknown api {api}")),
         }
     }));
+    #[cfg(hctl_verif)]
+    if trace_on {
+        biodivine_hctl_model_checker::verif_hooks::clear_sink();
+    }
+    if trace_on {
+        out.insert("steps".into(), json!(*trace_log.borrow()));
+    }
     let mut raw = vec![];
     match r {
         Ok(Ok(sets)) => {
             out.insert("outcome".into(), json!("ok"));
+            if trace_on && !sanitised {
+                out.insert("res_full".into(), json!(sets.iter().map(|s| explicit_full(s.as_bdd(), g.symbolic_context(), &bn, k as usize)).collect::<Vec<_>>()));
+            }
             let mut res = Vec::new();
             let mut aux = Vec::new();
             let mut canon_ok = Vec::new();
